@@ -22,7 +22,8 @@ DAI = TokenInfo("DAI", 18)
 USDT = TokenInfo("USDT", 6)  # not usable as collateral
 AAVE = TokenInfo("AAVE", 18)  # not borrowable
 WBTC = TokenInfo("WBTC", 8)  # high liquidation threshold / high bonus
-TOKENS = [WETH, USDC, DAI, USDT, AAVE, WBTC]
+LINK = TokenInfo("LINK", 18)  # usable as collateral with a max-LTV of 0 (counts towards the health factor, gives no borrowing power)
+TOKENS = [WETH, USDC, DAI, USDT, AAVE, WBTC, LINK]
 
 #        symbol  collateral LTV   LT     bonus  borrowable
 RISK = {
@@ -32,9 +33,10 @@ RISK = {
     "USDT": (False, 0, 0, 10450, True),
     "AAVE": (True, 6600, 7300, 10750, False),
     "WBTC": (True, 9000, 9300, 11000, True),
+    "LINK": (True, 0, 6500, 10700, True),
 }
 PRICES = {"WETH": Decimal(2000), "USDC": Decimal(1), "DAI": Decimal("1.001"), "USDT": Decimal("0.999"), "AAVE": Decimal(90),
-          "WBTC": Decimal(30000)}
+          "WBTC": Decimal(30000), "LINK": Decimal(15)}
 
 _RISK_PATH = [None]
 
@@ -87,6 +89,7 @@ STEP_SETS = {
     "USDT": (["1.013", "1.0005"], [1, "1.0005"]),
     "AAVE": ([1, "1.0005"], [1, 1]),
     "WBTC": (["1.0005", "1.0005"], ["1.0007", 1]),
+    "LINK": ([1, "1.0007"], ["1.0005", 1]),
 }
 
 
